@@ -29,7 +29,9 @@ T = lambda n: S(f"self.{n}")
 def worker_source(run):
     """(loops, worker term) of the unit workers the constraint ranges over on this path"""
     dec = dict(run.decisions)
-    if dec.get("isinstance(self.resource, Worker)") is True:
+    # `resource` is declared Union[Worker, CumulativeWorker]: either test decides the kind, in either polarity
+    plain = dec.get("isinstance(self.resource, Worker)") is True or dec.get("isinstance(self.resource, CumulativeWorker)") is False
+    if plain:
         return (), T("resource")
     W = loop(90, A(T("resource"), "_cumulative_workers"))
     return (W,), elem(W)
@@ -666,7 +668,7 @@ def _fixed_periodic_cores(ctx, cname, rule):
     fails_closed(ctx, rule, runs)
     out = []
     for run in mandatory_runs(runs):
-        if dict(run.decisions).get("isinstance(self.resource, Worker)") is not True:
+        if worker_source(run)[0] != ():          # the plain-worker paths (either isinstance test, either polarity)
             continue
         for e in run.emissions:
             if e.owner != SELF:
@@ -745,7 +747,7 @@ def r_periodic_core(ctx):
     runs = runs_of(ctx, Entry("init", cls=cname, opaque=OPAQUE))
     covered = set()
     for run in mandatory_runs(runs):
-        if dict(run.decisions).get("isinstance(self.resource, Worker)") is not True:
+        if worker_source(run)[0] != ():          # the plain-worker paths (either isinstance test, either polarity)
             continue
         for e in run.emissions:
             if e.owner != SELF:
